@@ -14,7 +14,7 @@
    panic, which assigned nothing.  For scripts without panics [fn_ret o = (oval o, oerr o)] and
    [shared] is the identity ([Proofs.fn_ret_nopanic], [Proofs.shared_id]). *)
 From Coq Require Import List ZArith Bool Arith.
-From GZ Require Import Lib.Sched C07.Model C07.Proofs C07.ProofsB C07.Check C07.CheckProofs C07.CheckModel.
+From GZ Require Import Lib.Sched C07.Model C07.Proofs C07.ProofsB C07.ProofsC C07.Check C07.CheckProofs C07.CheckProofsB C07.CheckModel.
 Import ListNotations.
 Local Open Scope nat_scope.
 
@@ -204,6 +204,59 @@ Theorem quiescent_blocked_behind_running_function : forall scripts sched t th o,
                  in_fn (ogrp o) (okey o) thL = true.
 Proof. exact quiescent_blocked_l. Qed.
 Print Assumptions quiescent_blocked_behind_running_function.
+
+(* Generation of a call entry.  The epilogue deletes BY KEY; that is the deletion of the call's OWN
+   entry: whenever a thread is about to delete (pc PFnDone c) the entry under its key is its own
+   object c, led by this very call and not released.  An entry of the map always belongs to the
+   current generation: an unfinished object whose leader is still inside the call that registered
+   it.  (Pinned.delete_by_key_hits_next_generation_refuted: a joiner that also deletes by key.) *)
+Theorem delete_is_of_own_entry : forall scripts sched t th o c r,
+  let s := exec scripts sched in
+  nth_error (threads s) t = Some th -> cur_op th = Some o -> tpc th = PFnDone c r ->
+  calls s (ogrp o) (okey o) = Some c /\ clead (heap s c) = (t, topi th) /\ cdone (heap s c) = false.
+Proof. exact delete_is_of_own_entry_l. Qed.
+Print Assumptions delete_is_of_own_entry.
+
+Theorem entry_is_current_generation : forall scripts sched g k c,
+  let s := exec scripts sched in
+  calls s g k = Some c ->
+  c < nextc s /\ cgrp (heap s c) = g /\ ckey (heap s c) = k /\ cdone (heap s c) = false /\
+  exists th o, nth_error (threads s) (fst (clead (heap s c))) = Some th /\
+               topi th = snd (clead (heap s c)) /\ owner_pc (tpc th) = Some c /\
+               cur_op th = Some o /\ ogrp o = g /\ okey o = k.
+Proof. exact entry_is_current_generation_l. Qed.
+Print Assumptions entry_is_current_generation.
+
+(* Order of the leader's epilogue - publish the result, delete the key, wg.Done - also when its
+   function panics or its goroutine exits (runtime.Goexit): an object from which waiters have been
+   released has its result and is not in the map any more. *)
+Theorem epilogue_order : forall scripts sched c,
+  let s := exec scripts sched in
+  c < nextc s -> cdone (heap s c) = true ->
+  (exists r, cval (heap s c) = Some r) /\ (forall g k, calls s g k <> Some c).
+Proof. exact epilogue_order_l. Qed.
+Print Assumptions epilogue_order.
+
+(* Frame: several instances / keys in one process.  A step of a thread working on another
+   (group, key) changes nothing that belongs to (g, k): not its map entry, not one of its call
+   objects, not (ResourceManager) its stored instance or creation count.  Instances of a
+   primitive are disjoint key spaces, so runs on different instances do not interact at all. *)
+Theorem other_keys_frame : forall scripts sched t s' th o g k,
+  let s := exec scripts sched in
+  step s t = Some s' -> nth_error (threads s) t = Some th -> cur_op th = Some o ->
+  (ogrp o, okey o) <> (g, k) ->
+  calls s' g k = calls s g k /\
+  (forall c, c < nextc s -> (cgrp (heap s c), ckey (heap s c)) = (g, k) -> heap s' c = heap s c) /\
+  (g = GRM -> resources s' k = resources s k /\ ncreated s' k = ncreated s k).
+Proof. exact frame_other_key_l. Qed.
+Print Assumptions other_keys_frame.
+
+(* The two executable specifications of the sequential ResourceManager histories (Get / Inject /
+   Close) agree: the property checker [rm_prop] (prop_ok) accepts every history of the model
+   [rm_seq] (agrees), from every starting content. *)
+Theorem rm_checker_accepts_model : forall ops m, rm_prop m ops (rm_seq m ops) = true.
+Proof. exact rm_prop_accepts_rm_seq. Qed.
+Print Assumptions rm_checker_accepts_model.
 
 (* ------------------------------------------------------------------ *)
 (* The decidable checker [Check.scan] (first conjunct of prop_ok, run on the event log of the
